@@ -273,6 +273,11 @@ def make_plan(seed: int, tier: str, index: int) -> dict[str, Any]:
                         "est_steps": max(200, total_ops * s.choice([500, 1500, 3000]))}
     if sub == "long":
         knobs["retain_results"] = False
+        # allocator shifts between the parses of a long history: which freed address the next
+        # chart's objects receive varies from operation to operation instead of hinging on the
+        # heap state the run inherited
+        for _ci, _k, op in all_ops:
+            op["shift"] = p.choice([0, 1, 2, 3, 4, 5, 6, 8, 11, 16])
     if schedule["mode"] != "sequential" and s.random() < 0.25:
         # write-biased schedule: switch right after heap writes, then let the other thread run long
         schedule = {"mode": "writes", "seed": s.getrandbits(32), "p": s.choice([0.1, 0.3, 0.6]),
@@ -478,6 +483,7 @@ def execute(plan: dict[str, Any]) -> dict[str, Any]:
     caches = _find_caches() if clear_at else []
     n_ops = 0
     texts_used = set()
+    shift_keep: dict[int, Any] = {}
 
     def body_for(ci: int) -> Any:
         ops = plan["clients"][ci]
@@ -515,6 +521,9 @@ def execute(plan: dict[str, Any]) -> dict[str, Any]:
                     cf_kind, cf_exc = "log", make_abort_exc(op["log_fault"]["exc"])
                 if cf_kind:
                     configured["caller_" + cf_kind] = configured.get("caller_" + cf_kind, 0) + 1
+                if op.get("shift") is not None:
+                    shift_keep[ci] = None
+                    shift_keep[ci] = world.heap_shift(int(op["shift"]))
                 stored_path = fs.path(parseop.stored_name(op, f"c{ci}o{k}") + ".chart")
                 eio_before = fs.eio_raised.count(stored_path)
                 if op.get("slot") is not None:
